@@ -729,6 +729,9 @@ func ruleIndexSign(w *World, r *Report) {
 			key := fmt.Sprintf("INDEX-SIGN / %s / index#%d", name, ord)
 			if lower {
 				r.Add(Obligation{Rule: "INDEX-SIGN", Key: key, Pos: w.Pos(in.Pos()), Status: Discharged, Canary: can, Detail: "the index " + p.Name() + " is bounded on both sides"})
+			} else if st, why := callersBoundBelow(w, f, paramIndex(f, p)); !can && f.Object() != nil && !f.Object().Exported() && st != Violated {
+				// a private helper: the lower bound may be the callers' business
+				r.Add(Obligation{Rule: "INDEX-SIGN", Key: key, Pos: w.Pos(in.Pos()), Status: st, Canary: can, Detail: "the index " + p.Name() + " of a private helper is tested from above only; " + why})
 			} else {
 				r.Add(Obligation{Rule: "INDEX-SIGN", Key: key, Pos: w.Pos(in.Pos()), Status: Violated, Canary: can,
 					Detail: "the table is indexed by the signed parameter " + p.Name() + " behind the upper-bound test at " + upper + " only: every negative value passes the test and the index expression panics (" + shortInstr(in) + ")"})
@@ -737,6 +740,99 @@ func ruleIndexSign(w *World, r *Report) {
 	}
 	if n == 0 {
 		r.add("INDEX-SIGN", "module scan", "-", Discharged, "no table is indexed by a signed parameter behind a one-sided bound test")
+	}
+}
+
+// callersBoundBelow: do the call sites of the private function f keep its parameter pi
+// non-negative?  Discharged: every site passes a non-negative constant or sits behind a test of
+// the argument against a constant <= 0; Violated: a site passes a signed parameter of an
+// exported function that is compared with nothing there; Undecided otherwise.
+func callersBoundBelow(w *World, f *ssa.Function, pi int) (Status, string) {
+	if pi < 0 {
+		return Undecided, "the parameter was not found"
+	}
+	sites, good := 0, 0
+	bad := ""
+	for _, g := range w.ModFuncs {
+		if g.Blocks == nil {
+			continue
+		}
+		instrs(g, func(in ssa.Instruction) {
+			ci, ok := in.(ssa.CallInstruction)
+			if !ok || ci.Common().StaticCallee() != f || pi >= len(ci.Common().Args) {
+				return
+			}
+			sites++
+			a := stripConv(ci.Common().Args[pi])
+			if k, ok := constInt(a); ok {
+				if k >= 0 {
+					good++
+				} else {
+					bad = "the call at " + w.Pos(in.Pos()) + " passes " + fmt.Sprint(k)
+				}
+				return
+			}
+			// the argument, or the value it is the negation of
+			subj := []ssa.Value{a}
+			if u, ok := a.(*ssa.UnOp); ok && u.Op == token.SUB {
+				subj = append(subj, stripConv(u.X))
+			}
+			compared := false
+			for _, blk := range g.Blocks {
+				_, _, ifi := ifSuccs(blk)
+				if ifi == nil {
+					continue
+				}
+				c, ok := ifi.Cond.(*ssa.BinOp)
+				if !ok {
+					continue
+				}
+				switch c.Op {
+				case token.LSS, token.LEQ, token.GTR, token.GEQ:
+				default:
+					continue
+				}
+				for _, sv := range subj {
+					var other ssa.Value
+					if stripConv(c.X) == sv {
+						other = c.Y
+					} else if stripConv(c.Y) == sv {
+						other = c.X
+					} else {
+						continue
+					}
+					if k, ok := constInt(other); ok && k <= 1 && k >= -1 && blk.Dominates(in.Block()) {
+						compared = true
+					}
+				}
+			}
+			if compared {
+				good++
+				return
+			}
+			if q, ok := a.(*ssa.Parameter); ok && g.Object() != nil && g.Object().Exported() && g.Parent() == nil {
+				anyCmp := false
+				for _, ref := range *q.Referrers() {
+					if b, ok := ref.(*ssa.BinOp); ok {
+						switch b.Op {
+						case token.LSS, token.LEQ, token.GTR, token.GEQ, token.EQL, token.NEQ:
+							anyCmp = true
+						}
+					}
+				}
+				if !anyCmp {
+					bad = "the exported " + w.FuncName(g) + " hands its parameter " + q.Name() + " on at " + w.Pos(in.Pos()) + " without comparing it with anything"
+				}
+			}
+		})
+	}
+	switch {
+	case bad != "":
+		return Violated, bad
+	case sites > 0 && good == sites:
+		return Discharged, fmt.Sprintf("all %d call site(s) pass a value tested against zero or a non-negative constant", sites)
+	default:
+		return Undecided, fmt.Sprintf("%d of %d call site(s) could be seen to keep it non-negative", good, sites)
 	}
 }
 
